@@ -163,6 +163,25 @@ def path_kind(path):
     return "plain"
 
 
+def only_additions(before, after):
+    """True if `after` is `before` plus new nodes (containers only gained children / members)."""
+    fb, fa = ed.flat(before), ed.flat(after)
+    new = [a for a in fa if a not in fb]
+    if not new:
+        return False
+    for a, was in fb.items():
+        now = fa.get(a)
+        if now == was:
+            continue
+        if now is None or was[0] == "scalar" or now[0] != was[0] or now[1] != was[1]:
+            return False
+        if was[0] == "seq" and now[2] < was[2]:
+            return False
+        if was[0] in ("map", "set") and tuple(now[2][:len(was[2])]) != tuple(was[2]):
+            return False
+    return True
+
+
 def purity_case(case, bump, viol, keys):
     from yamlpath import Processor
     j, path = case["doc"], case["path"]
@@ -170,6 +189,7 @@ def purity_case(case, bump, viol, keys):
     bump("purity:" + kind)
     matched = False
     exists = False
+    n_required = -1
     for api in ("exists", "required", "optional"):
         if api == "optional" and not exists:
             continue
@@ -181,13 +201,24 @@ def purity_case(case, bump, viol, keys):
         elif api == "required":
             res = ed.guarded(lambda: len(list(proc.get_nodes(path, mustexist=True))))
             matched = res[0] == "ok" and res[1] > 0
+            n_required = res[1] if res[0] == "ok" else -1
         else:
             res = ed.guarded(lambda: len(list(proc.get_nodes(path, mustexist=False))))
+            if res[0] == "ok" and res[1] != n_required:
+                # the path exists under some matches of a search/wildcard and is created under others:
+                # not "a path that already exists"
+                bump("purity:optional-creates-in-unmatched-branch-not-judged")
+                continue
         if res[0] == "timeout":
             viol.append(("timeout", "%s(%s) did not finish in 10 s" % (api, path), dict(case)))
             return
         after = ed.snapshot(proc.data)
         bump("purity-call:%s:%s" % (api, res[0].split(":")[0]))
+        if after != j and api == "optional" and only_additions(j, after):
+            # created under a match of a search / wildcard that lacks the rest of the path:
+            # creation, not a read of "a path that already exists"
+            bump("purity:optional-creates-in-unmatched-branch-not-judged")
+            continue
         if after != j:
             viol.append(("query-mutates-document:" + kind, "%s on path %s changed the document" % (
                 {"exists": "exists()", "required": "get_nodes(mustexist=True)", "optional": "get_nodes(mustexist=False)"}[api], path),
@@ -247,6 +278,34 @@ def real_create(case):
     return res, after, resolved
 
 
+def null_prefix(j, segs):
+    """True if a PROPER prefix of the straight-line path leads to a null node."""
+    cur = j
+    for n, (kind, ref) in enumerate(segs):
+        if cur["k"] == "null" and "a" not in cur:
+            return n > 0 or True
+        if cur["k"] == "map" and kind == "k":
+            d = dict((k, v) for k, v in cur["e"])
+            if ref in d:
+                cur = d[ref]
+            elif isinstance(ref, str) and ref.lstrip("-").isdigit() and int(ref) in d:
+                cur = d[int(ref)]
+            else:
+                return False
+        elif cur["k"] == "seq":
+            try:
+                i = int(ref)
+            except ValueError:
+                return False
+            if -len(cur["i"]) <= i < len(cur["i"]):
+                cur = cur["i"][i]
+            else:
+                return False
+        else:
+            return False
+    return False
+
+
 def judge_create(case, r, ans, ns, bump, viol, disag, samples, keys, stats):
     res, after, resolved = r
     j = case["doc"]
@@ -281,18 +340,21 @@ def judge_create(case, r, ans, ns, bump, viol, disag, samples, keys, stats):
     new_addrs = [a for a in after_flat if a not in before_flat]
     changed_old = [a for a in before_flat if before_flat[a] != after_flat.get(a)]
     bump("create:tail-%d" % min(len(new_addrs), 6))
+    if null_prefix(j, case["segs"]):
+        # a null on the way: the code relays (and, for a set, overwrites) the null instead of creating the tail
+        if case["mode"] == "set" or after != j:
+            viol.append(("create-stops-at-null", "creating %s: an existing null at a proper prefix of the path is relayed/overwritten; "
+                         "the missing tail is not created and the path does not resolve to the value" % path, rep))
+        else:
+            viol.append(("create-stops-at-null", "get_nodes(%s, mustexist=False): an existing null at a proper prefix is relayed; "
+                         "the missing tail is not created" % path, rep))
+        return
     # direct frame check: an old node may change only by gaining children on the way to the new spine
-    for a in changed_old:
-        if not any(n[:len(a)] == a for n in new_addrs):
-            was = before_flat[a]
-            if was == ("scalar", json.dumps({"k": "null"})) and len(a) < len(case["segs"]):
-                viol.append(("create-stops-at-null", "creating %s: the existing null at a prefix was overwritten with the value; "
-                             "the path does not resolve" % path, rep))
-            elif case["mode"] == "set" and len(a) == len(case["segs"]) and not new_addrs:
-                continue       # the path existed: a plain set of the existing node
-            else:
+    if new_addrs:
+        for a in changed_old:
+            if not any(n[:len(a)] == a for n in new_addrs):
                 viol.append(("create-changes-existing-node", "creating %s changed a pre-existing node outside the created spine" % path, rep))
-            return
+                return
     if after != ans["ok"]:
         viol.append(("create-differs", "after creating %s the document is not the original plus exactly the missing tail" % path, rep))
         return
@@ -301,7 +363,6 @@ def judge_create(case, r, ans, ns, bump, viol, disag, samples, keys, stats):
         want = ns["plain"]["ok"]
         got = [codec.strip_anchors(x) for x in resolved] if isinstance(resolved, list) else resolved
         if got != [want]:
-            null_prefix = any(before_flat.get(tuple(map(tuple, [])), None) is None for _ in [0]) and False
             viol.append(("create-path-does-not-resolve", "after set_value(%s, %r) the path resolves to %s, expected exactly [%s]" % (
                 path, case["v"][1], json.dumps(got)[:120], json.dumps(want)), rep))
             return
